@@ -167,6 +167,9 @@ type Elem struct {
 	Order int
 	Unk   int
 	Zero  int // documents only: 1 = absent optional scalars are written with their zero value
+	// UID, if non-zero, is the uid of the element instead of the table value (several
+	// elements of one document then share a uid under different user names)
+	UID int64 `json:",omitempty"`
 }
 
 func (e Elem) has(bit uint) bool { return e.Mask&(1<<bit) != 0 }
@@ -311,6 +314,9 @@ func buildMeta(e Elem) (m meta, pre []kv, post []kv) {
 	}
 	if e.has(1) {
 		m.UID = osm.UserID(e.n(3))
+		if e.UID != 0 {
+			m.UID = osm.UserID(e.UID)
+		}
 		pre = append(pre, kv{"uid", itoa(int64(m.UID))})
 	} else {
 		pre = e.z(pre, "uid", "0")
@@ -536,6 +542,9 @@ func buildChangeset(e Elem) (*osm.Changeset, []kv) {
 	}
 	if e.has(1) {
 		c.UserID = osm.UserID(e.n(3))
+		if e.UID != 0 {
+			c.UserID = osm.UserID(e.UID)
+		}
 		kvs = append(kvs, kv{"uid", itoa(int64(c.UserID))})
 	} else {
 		kvs = e.z(kvs, "uid", "0")
